@@ -353,6 +353,18 @@ pub fn run(ctx: &Ctx) {
     for (g, shape, lj, reps, verbose) in [("p2", "polygon", false, 64u64, true), ("p2mg", "trimer", false, 56, true), ("p1g1", "circle", true, 51, true), ("p2", "polygon", false, 70, false)].iter() {
         cases.push(Case { group: g.to_string(), shape: shape.to_string(), sides: 4, radius: 0.637556, angle: 120., distance: 1., lj: *lj, max_replications: 1, steps: 100, inner_steps: 100, extra: if *verbose { vec!["-v".into()] } else { vec![] }, fixed_replications: Some(*reps), start_config_from: None });
     }
+    // a convergence threshold with short loops: stages that may end early, for 1, 2, 3 replicas
+    {
+        let mut r = ctx.rng(1010);
+        for i in 0..ctx.tier.pick(36usize, 400usize) {
+            use rand::Rng;
+            let g = groups::NAMES[i % 7];
+            let shape = ["polygon", "circle", "trimer"][(i / 7) % 3];
+            let conv = ["1e-2", "1e-3", "3e-2", "1e-1"][r.gen_range(0, 4)];
+            let step = ["0.05", "0.1", "0.2"][r.gen_range(0, 3)];
+            cases.push(Case { group: g.to_string(), shape: shape.to_string(), sides: [3, 4, 5, 6][r.gen_range(0, 4)], radius: 0.637556, angle: 120., distance: 1., lj: false, max_replications: 3, steps: 1000, inner_steps: [5, 10, 20, 50][r.gen_range(0, 4)], extra: vec!["--convergence".into(), conv.into(), "--max-step-size".into(), step.into()], fixed_replications: None, start_config_from: None });
+        }
+    }
     // very many replications (batch sizes, 8/10/12-bit indices, buffer limits): the written
     // structure is still the best of all of them
     let big: Vec<(&str, &str, bool, u64)> = match ctx.tier {
